@@ -3,6 +3,7 @@ import FsutilModel.PruneSyn
 import FsutilModel.Model.Filter
 /-! # C10 — Filtered walk; pruning is unobservable -/
 namespace Fsm.C10
+open P
 
 /-- Core of pruning soundness for the parent-result matcher, for every pattern list (patterns
 abstracted to their match predicate), every directory `d` and every descendant `q` evaluated with
@@ -30,5 +31,93 @@ if the walk does not keep walking into `d`, nothing under `d` matches unless `d`
 theorem prune_syntactic_sound (s : PS.Shape) (t : Path) (hb : PS.base1 s = some t) (d : Path)
     (hk : PS.keepWalking t d = false) : ∀ q, PS.under d q = true → PS.m s q = true → PS.m s d = true :=
   PS.prune_syn_sound s t hb d (by simp) hk
+
+/-- the executable pattern as an abstract (negation, match predicate) pair -/
+def toAbs (p : P.Pat) : Pr.Pat := ⟨p.neg, fun x => patMatch p x⟩
+
+
+theorem go_bridge (path : List Nat) (parent : List Bool) (hne : parent ≠ []) :
+    ∀ (ps : List P.Pat) (par : List Bool) (matched : Bool) (acc : List Bool), par.length = ps.length →
+      matchesUPR.go path parent ps par matched acc =
+        ((Pr.go (ps.map toAbs) par path matched).1, acc.reverse ++ (Pr.go (ps.map toAbs) par path matched).2) := by
+  intro ps
+  induction ps with
+  | nil => intro par matched acc _; simp [matchesUPR.go, Pr.go]
+  | cons p rest ih =>
+    intro par matched acc hlen
+    cases par with
+    | nil => simp at hlen
+    | cons b bs =>
+      have hl : bs.length = rest.length := by simpa using hlen
+      have hpe : parent.isEmpty = false := by cases parent <;> simp_all
+      simp only [matchesUPR.go, List.drop_one, List.tail_cons, List.map_cons, Pr.go, List.headD_cons]
+      by_cases hb : b = true
+      · subst hb
+        simp only [if_true]
+        rw [ih bs _ _ hl]
+        simp [toAbs]
+      · have hb' : b = false := by simpa using hb
+        subst hb'
+        simp only [Bool.false_eq_true, if_false]
+        by_cases hn : (p.neg != matched) = true
+        · simp only [hn, if_true]
+          rw [ih bs _ _ hl]
+          simp [toAbs, hn]
+        · simp only [hn, Bool.false_eq_true, if_false, hpe, Bool.false_and, Bool.or_false]
+          rw [ih bs _ _ hl]
+          simp [toAbs, hn]
+
+
+/-- the executable parent-results matcher IS the abstract one, whenever it is given parent results (i.e. below the root) -/
+theorem matchesUPR_eq (ps : List P.Pat) (path : List Nat) (I : List Bool) (hne : I ≠ []) (hlen : I.length = ps.length) :
+    matchesUPR ps path I = Pr.upr (ps.map toAbs) I path := by
+  unfold matchesUPR Pr.upr
+  rw [go_bridge path I hne ps I false [] hlen]
+  simp
+
+theorem Rel_refl (d : Pr.Path) : ∀ (ps : List Pr.Pat) (I : List Bool), I.length = ps.length → Pr.Rel d ps I I
+  | [], [], _ => trivial
+  | [], _ :: _, h => by simp at h
+  | _ :: _, [], h => by simp at h
+  | p :: ps, a :: as, h => ⟨fun ha => Or.inl ha, Rel_refl d ps as (by simpa using h)⟩
+
+/-- **Pruning is unobservable for the executable matcher** (include side, semantic condition): let the transcribed
+`MatchesUsingParentResults` give verdict "no match" at a directory `d`. If no positive pattern of the list matches a path of
+`Below` without matching `d` itself, then along every chain of paths of `Below` evaluated top-down with the parent results
+threaded through - as the walk does below `d` - the verdict stays "no match": nothing below `d` would have been reported,
+so returning SkipDir at `d` cannot be observed. For every pattern list (negations included) and every such chain. -/
+theorem exec_prune_sound (ps : List P.Pat) (hps : ps ≠ []) (Ip : List Bool) (hIp : Ip.length = ps.length) (d : List Nat)
+    (hv : (matchesUPR ps d Ip).1 = false) (Below : List Nat → Prop)
+    (hS : ∀ q, Below q → ∀ p ∈ ps, p.neg = false → patMatch p q = true → patMatch p d = true) :
+    ∀ (chain : List (List Nat)), (∀ q ∈ chain, Below q) → chain ≠ [] →
+      (chain.foldl (fun (acc : List Bool × Bool) x => let r := matchesUPR ps x acc.1; (r.2, acc.2 || r.1))
+        ((matchesUPR ps d Ip).2, false)).2 = false := by
+  have hIne : Ip ≠ [] := by
+    intro e; rw [e] at hIp; simp at hIp; exact hps (List.eq_nil_of_length_eq_zero hIp.symm)
+  have hlenA : Ip.length = (ps.map toAbs).length := by simpa using hIp
+  rw [matchesUPR_eq ps d Ip hIne hIp] at hv ⊢
+  have hS' : ∀ q, Below q → ∀ p ∈ ps.map toAbs, p.neg = false → p.m q = true → p.m d = true := by
+    intro q hq p hp hn hm
+    obtain ⟨p0, hp0, rfl⟩ := List.mem_map.mp hp
+    exact hS q hq p0 hp0 hn hm
+  intro chain hB hne
+  -- the fold over the executable matcher equals the fold over the abstract one (lengths are preserved)
+  have hfold : ∀ (xs : List (List Nat)) (I : List Bool) (b : Bool), I.length = ps.length →
+      xs.foldl (fun (acc : List Bool × Bool) x => let r := matchesUPR ps x acc.1; (r.2, acc.2 || r.1)) (I, b) =
+      xs.foldl (fun (acc : List Bool × Bool) x => let r := Pr.upr (ps.map toAbs) acc.1 x; (r.2, acc.2 || r.1)) (I, b) := by
+    intro xs
+    induction xs with
+    | nil => intro I b _; rfl
+    | cons x xs ih =>
+      intro I b hI
+      have hIne' : I ≠ [] := by intro e; rw [e] at hI; simp at hI; exact hps (List.eq_nil_of_length_eq_zero hI.symm)
+      simp only [List.foldl_cons]
+      rw [matchesUPR_eq ps x I hIne' hI]
+      exact ih _ _ (by rw [Pr.upr, Pr.go_length]; simp)
+  have hl0 : (Pr.upr (ps.map toAbs) Ip d).2.length = ps.length := by rw [Pr.upr, Pr.go_length]; simp
+  rw [hfold chain _ false hl0]
+  obtain ⟨q, hq⟩ := List.exists_mem_of_ne_nil chain hne
+  exact Pr.prune_sound (ps.map toAbs) Ip d hlenA hv Below hS' chain hB _ (by rw [hl0]; simp) (Pr.Le_refl _)
+    (Rel_refl d _ _ (by rw [hl0]; simp)) q hq trivial
 
 end Fsm.C10
